@@ -122,6 +122,11 @@ impl<'a> Visitor for Enumerate<'a> {
                 }
                 jobs.push((Op::Powi(n), bf));
             }
+            // bases +-1: exact values, parity of huge exponents (derivative parts n, n(n-1), ...)
+            if (n as f64).abs().powi(3) < if F::PREC == 53 { 1e100 } else { 1e30 } {
+                jobs.push((Op::Powi(n), -1.0));
+                jobs.push((Op::Powi(n), 1.0));
+            }
         }
         let n_powi = sweep_points::<F, D>(d, &l, &jobs, 2, &c, &exec_generic::<F, D>, self.stats);
         // ---- powf
